@@ -6,6 +6,7 @@
 //!   SL <W|R|PUB|SUB|P> <idx> l= m=   set_listener after creation (create with old=1 to label the replaced listener OLD..)
 //!   Q <W|R> <idx> lb=<ns> dl=<ns>   set_qos (latency budget / deadline) after creation
 //!   netw <key>    deliver only the datagrams carrying DATA of the writer with that entity key (256 = SPDP)
+//!   netm          merge all pending user DATA datagrams into one datagram and deliver it (several changes in one worker pass)
 //!   jump <ns>     move the clock without visiting intermediate timer deadlines, then settle
 //!   ev            print and clear the recorded listener calls: `ev <label>:<kind>:<count> ...` (sorted);
 //!                 labels P<i> PUB<i> SUB<i> W<i> R<i> T<i> (creation index of the entity owning the listener)
@@ -604,6 +605,37 @@ impl World {
                     }
                 }
                 format!("netw {}", k)
+            }
+            "netm" => {
+                // merge ALL pending user datagrams that carry a DATA submessage into ONE datagram (header of the
+                // first + all submessages, as a batching RTPS writer would send them) and deliver it: every
+                // reader gets all those changes within one pass of the worker; the rest stays in flight
+                self.sim.settle();
+                let mut group: Vec<Packet> = vec![];
+                {
+                    let mut q = self.sim.shared.inflight.lock().unwrap();
+                    let mut i = 0;
+                    while i < q.len() {
+                        let p = &q[i];
+                        let is_data = !p.meta && !p.held && summarize(&p.bytes).iter().any(|x| x.0 == "DATA");
+                        let same_route = group.first().map(|g| g.from == p.from && g.to == p.to).unwrap_or(true);
+                        if is_data && same_route {
+                            group.push(q.remove(i));
+                        } else {
+                            i += 1;
+                        }
+                    }
+                }
+                let k = group.len();
+                if k > 0 {
+                    let mut bytes = group[0].bytes[..20].to_vec();
+                    for p in &group {
+                        bytes.extend_from_slice(&p.bytes[20..]);
+                    }
+                    let p = Packet { id: 0, from: group[0].from, to: group[0].to, meta: false, bytes, held: false };
+                    self.sim.deliver_packet(&p);
+                }
+                format!("netm {}", k)
             }
             "jump" => {
                 // move the simulated clock WITHOUT stopping at the timer deadlines on the way, then let the
